@@ -27,9 +27,16 @@ Small == << EPath(A), EPath(C), Idx(EPath(A), 0), Idx(EPath(A), 2), Idx(EPath(A)
 Derive == << ENul("REVERSE"), ESlice(ELit(IntV(1)), ENul("LENGTH")), ESlice(ELit(IntV(0)), ELit(IntV(2))), EUn("MAP", ESelf), EBin("ADD", ESelf, ESelf), ENul("SORT"),
              ECollect(EPipe(ESplat, EUn("SELECT", ECmp(TRUE, FALSE, ESelf, ELit(IntV(1)))))), ENul("UNIQUE"), EFlatten(-1), EUn("FILTER", EBin("NOT_EQUALS", ESelf, ELit(IntV(0)))),
              EUn("SORT_BY", EPath(A)), ECollect(ESplat) >>
+\* selections that yield KEY nodes (`key`, `...`): deleting a key deletes its entry
+IsStr(x) == EUn("SELECT", EBin("EQUALS", ESelf, ELit(StrV(x))))
+KeySels == << EPipe(EPath(A), ENul("GET_KEY")), EPipe(EPipe(EPath(B), EPath(A)), ENul("GET_KEY")), EPipe(ERecurse(TRUE), IsStr(A)), EPipe(ERecurse(TRUE), IsStr(B)),
+              EPipe(EPipe(EPath(B), ESplat), ENul("GET_KEY")), EPipe(ESplat, EPipe(ENul("GET_KEY"), IsStr(B))), EPipe(EPipe(EPath(A), ESplat), EPipe(ESplat, ENul("GET_KEY"))),
+              EUnion(EPipe(EPath(A), ENul("GET_KEY")), EPath(B)), EUnion(EPipe(EPath(B), EPath(A)), EPipe(EPath(B), ENul("GET_KEY"))) >>
 DSels == << EIndex(0), EIndex(1), EIndex(-1), ETravArr(ESelf, ECollect(EUnion(ELit(IntV(0)), ELit(IntV(2))))), EPipe(ESplat, IsTwo), ETravArr(ESelf, ECollect(EUnion(ELit(IntV(1)), ELit(IntV(0))))) >>
 ExprSeq ==
      [i \in DOMAIN Sels |-> EDelete(Sels[i])]
+  \o [i \in DOMAIN KeySels |-> EDelete(KeySels[i])]
+  \o [i \in DOMAIN KeySels |-> ECollect(EPipe(KeySels[i], ENul("IS_KEY")))]
   \o FlatMap(LAMBDA x : [j \in DOMAIN Small |-> EDelete(EUnion(x, Small[j]))], Small)                                   \* del(s1, s2) in both orders
   \o FlatMap(LAMBDA f : [j \in DOMAIN DSels |-> EPipe(EPipe(EPath(A), f), EDelete(DSels[j]))], Derive)                    \* f | del(s)
   \o FlatMap(LAMBDA f : [j \in DOMAIN DSels |-> EPipe(f, EDelete(DSels[j]))], Derive)
